@@ -488,9 +488,15 @@ def _grammar_order(ctx, rule):
     from . import c08
     return c08.r13_grammar_order(ctx, rule)
 
+def _walk_seeding(ctx, rule):
+    # --limit N is a prefix of a longer run in random_walk mode only if the walk is seeded reproducibly (seed C09-o: a private
+    # random.Random() is seeded while random_walk keeps drawing from the global generator)
+    from . import c16
+    return c16.r3_seeding(ctx, rule)
+
 def rules(tier):
     return [('C09.R1', r1_single_stdout_writer), ('C09.R2', r2_pairing), ('C09.R3', r3_threading), ('C09.R4', r4_limit_writers),
-            ('C09.R5', lambda c, r: __import__('sa.props.c04', fromlist=['x']).r12_output_point_total(c, r)), ('C09.R6', _limit_blind_queue), ('C09.R7', _grammar_order)]
+            ('C09.R5', lambda c, r: __import__('sa.props.c04', fromlist=['x']).r12_output_point_total(c, r)), ('C09.R6', _limit_blind_queue), ('C09.R7', _grammar_order), ('C09.R8', _walk_seeding)]
 
 
 META = {
